@@ -27,4 +27,93 @@ def errPanic : Err := ⟨999, []⟩
 def Err.beq (a b : Err) : Bool := decide (a = b)
 def strEq (a b : List Nat) : Bool := decide (a = b)
 def panicStr : List Nat := [33, 112, 97, 110, 105, 99, 33]   -- "!panic!"
+/-! ## additions for the translated parsers (`Cvss/Gen/P*.lean`) -/
+
+/-- outcome of a Go call returning `(*T, error)`: the object (`return obj, nil`), an error
+    (`return nil, e`), or a run-time panic -/
+inductive Res (α : Type) where
+  | ok (c : α)
+  | err (e : Err)
+  | panic
+deriving Repr, DecidableEq
+
+/-- outcome of a fuel-bounded `for` loop: ran to completion (condition false or `break`) with the final state,
+    left the function with `return`, or ran out of fuel (treated by the generated code as a panic) -/
+inductive Loop (σ : Type) (ρ : Type) where
+  | done (s : σ)
+  | ret (r : ρ)
+  | fuel
+
+/-- `for init; cnd; post { body }` on the state `st` (loop variable and every variable assigned in the loop).
+    `continue` and falling off the end of the body are `Ctl.next` (then `post` runs), `break` is `Ctl.brk`,
+    `return` is `Ctl.ret`. Every condition test consumes one unit of fuel; none left ⇒ `Loop.fuel`. -/
+def forN {σ ρ : Type} (fuel : Nat) (st : σ) (cnd : σ → Bool) (post : σ → σ) (body : σ → Ctl σ ρ) : Loop σ ρ :=
+  match fuel with
+  | 0 => .fuel
+  | fuel + 1 =>
+    match cnd st with
+    | false => .done st
+    | true =>
+      match body st with
+      | .next s => forN fuel (post s) cnd post body
+      | .brk s => .done s
+      | .ret r => .ret r
+
+/-- `s[i]` (string byte, slice or table element); out of range ⇒ `panic` -/
+@[inline] def index {α ρ : Type} (s : List α) (i : Nat) (panic : ρ) (k : α → ρ) : ρ :=
+  match s[i]? with
+  | some x => k x
+  | none => panic
+/-- `s[lo:hi]`; requires `lo ≤ hi ≤ len(s)` (slices are modelled with `cap = len`), else `panic` -/
+@[inline] def slice {α ρ : Type} (s : List α) (lo hi : Nat) (panic : ρ) (k : List α → ρ) : ρ :=
+  match Nat.ble lo hi && Nat.ble hi s.length with
+  | true => k ((s.take hi).drop lo)
+  | false => panic
+/-- `s[lo:]` -/
+@[inline] def sliceFrom {α ρ : Type} (s : List α) (lo : Nat) (panic : ρ) (k : List α → ρ) : ρ :=
+  match Nat.ble lo s.length with
+  | true => k (s.drop lo)
+  | false => panic
+/-- `s[:hi]` -/
+@[inline] def sliceTo {α ρ : Type} (s : List α) (hi : Nat) (panic : ρ) (k : List α → ρ) : ρ :=
+  match Nat.ble hi s.length with
+  | true => k (s.take hi)
+  | false => panic
+/-- `s[i] = v` on a slice; out of range ⇒ `panic` -/
+@[inline] def setIndex {α ρ : Type} (s : List α) (i : Nat) (v : α) (panic : ρ) (k : List α → ρ) : ρ :=
+  match Nat.blt i s.length with
+  | true => k (s.set i v)
+  | false => panic
+/-- `*p` where `p` points to a field of the struct `s` (a struct is the list of its fields, a pointer is the
+    field index, `nil` is `none`); nil ⇒ `panic` -/
+@[inline] def load {α ρ : Type} (s : List α) (p : Option Nat) (panic : ρ) (k : α → ρ) : ρ :=
+  match p with
+  | some i => index s i panic k
+  | none => panic
+/-- `*p = v` -/
+@[inline] def store {α ρ : Type} (s : List α) (p : Option Nat) (v : α) (panic : ρ) (k : List α → ρ) : ρ :=
+  match p with
+  | some i => setIndex s i v panic k
+  | none => panic
+
+/-- `strings.HasPrefix` -/
+def hasPrefix (s p : List Nat) : Bool := p.isPrefixOf s
+
+/-- `strings.Cut` core: position-free search for the first occurrence of `sep` -/
+def cutAux (sep : List Nat) : List Nat → Option (List Nat × List Nat)
+  | [] => match sep with
+    | [] => some ([], [])
+    | _ :: _ => none
+  | c :: cs =>
+    match sep.isPrefixOf (c :: cs) with
+    | true => some ([], (c :: cs).drop sep.length)
+    | false =>
+      match cutAux sep cs with
+      | some r => some (c :: r.1, r.2)
+      | none => none
+/-- `strings.Cut(s, sep)`: `(before, after, found)`; not found ⇒ `(s, "", false)` -/
+def cut (s sep : List Nat) : List Nat × List Nat × Bool :=
+  match cutAux sep s with
+  | some r => (r.1, r.2, true)
+  | none => (s, [], false)
 end Go
